@@ -123,12 +123,20 @@ pub fn check(c: &Case) -> CheckResult {
     if switches_live >= 100 {
         cls |= 8;
     }
+    if (0..k).any(|i| (0..i).any(|j| c.cfgs[i].flop != c.cfgs[j].flop && {
+        let (mut a, mut b) = (c.cfgs[i].flop, c.cfgs[j].flop);
+        a.sort_unstable();
+        b.sort_unstable();
+        a == b
+    })) {
+        cls |= 32;
+    }
     if restarts > 0 {
         cls |= 16;
     }
     Ok(Outcome::new(k >= 2 && switches_live > 0, fp_of(&format!("{:?}", c)), cls))
 }
-pub const CLASSES: &[&str] = &["context_switch_between_live_evaluators", "identical_evaluators", "same_inputs_different_scope", "hundred_plus_switches", "drop_and_restart_mid_run"];
+pub const CLASSES: &[&str] = &["context_switch_between_live_evaluators", "identical_evaluators", "same_inputs_different_scope", "hundred_plus_switches", "drop_and_restart_mid_run", "same_flop_cards_other_order"];
 
 pub fn scoped_cfg() -> impl Strategy<Value = Config> {
     (cfg_strategy(), proptest::option::weighted(0.6, window_strategy())).prop_map(|(mut c, w)| {
@@ -145,6 +153,13 @@ pub fn cfgs_strategy(max: usize) -> impl Strategy<Value = Vec<Config>> {
         // some evaluators identical to / differing only by scope from another one
         for (src, _, w) in dups {
             let mut c = v[src as usize % v.len()].clone();
+            // every other duplicate lists the same three flop cards in another order
+            match (src >> 4) % 6 {
+                1 => c.flop.swap(0, 1),
+                2 => c.flop.swap(1, 2),
+                3 => c.flop.rotate_left(1),
+                _ => {}
+            }
             if let Some((a, b)) = w {
                 let (pa, pb) = (index_pos(a), index_pos(b));
                 c.scope = Some((pa.0, pa.1, pb.0, pb.1));
@@ -235,7 +250,7 @@ pub fn heavy_thread_strategy() -> impl Strategy<Value = ThreadCase> {
 }
 
 pub fn run(ctx: &mut Ctx) {
-    ctx.rule = "in-process: 1-6 live evaluators over small generated configurations (some identical, some differing only by scope), a generated schedule of (evaluator, burst) steps (single steps, short bursts, long bursts, finish-one-then-resume, dropping an iterator in mid-run and starting an identically constructed one) followed by a round-robin drain; each evaluator's interleaved fingerprint sequence must equal, element by element, the sequence of an identically constructed evaluator iterated alone. Thread part (isolated binary, one process per case): 1-19 evaluators each drained on its own thread behind a barrier, evaluators built on the main thread and moved, ranges shared through Arc, showdowns sent back through a channel, iterators advanced on one thread and handed over to another; 1-3 rounds; stream heavy_thread_rounds: 4-16 evaluators over 6-24-combo two-player ranges on different flops (up to 400k slots each) drained simultaneously. Non-trivial = >= 2 evaluators with >= 1 context switch between two non-exhausted evaluators (threads: >= 2 concurrent evaluators); distinct by case.".into();
+    ctx.rule = "in-process: 1-6 live evaluators over small generated configurations (some identical, some differing only by scope or by the order of the three flop cards), a generated schedule of (evaluator, burst) steps (single steps, short bursts, long bursts, finish-one-then-resume, dropping an iterator in mid-run and starting an identically constructed one) followed by a round-robin drain; each evaluator's interleaved fingerprint sequence must equal, element by element, the sequence of an identically constructed evaluator iterated alone. Thread part (isolated binary, one process per case): 1-19 evaluators each drained on its own thread behind a barrier, evaluators built on the main thread and moved, ranges shared through Arc, showdowns sent back through a channel, iterators advanced on one thread and handed over to another; 1-3 rounds; stream heavy_thread_rounds: 4-16 evaluators over 6-24-combo two-player ranges on different flops (up to 400k slots each) drained simultaneously. Non-trivial = >= 2 evaluators with >= 1 context switch between two non-exhausted evaluators (threads: >= 2 concurrent evaluators); distinct by case.".into();
     ctx.assumptions = vec![
         "OS thread schedules are only sampled; the deterministic single-thread interleavings are the deciding step for shared state through statics or thread-locals".into(),
         "Send/Sync of FlopExhaustiveEvaluator, its iterator, HandRange, Showdown, HandRangeToken, MadeHand, CardPair is a compile-time by-product of building c15_threads".into(),
@@ -252,6 +267,7 @@ pub fn run(ctx: &mut Ctx) {
     ctx.require_class("interleavings", "context_switch_between_live_evaluators", cases / 3);
     ctx.require_class("interleavings", "identical_evaluators", cases / 10);
     ctx.require_class("interleavings", "drop_and_restart_mid_run", cases / 4);
+    ctx.require_class("interleavings", "same_flop_cards_other_order", cases / 20);
     ctx.require_class("interleavings", "same_inputs_different_scope", cases / 20);
     if std::env::var("C15_COMPILE_FAIL").is_err() {
         if !std::path::Path::new(&threads_bin()).exists() {
